@@ -28,7 +28,7 @@ def mutate(rng, boundary, body):
     t = fl.delim(boundary)
     body = bytearray(body)
     for _ in range(rng.choice([1, 1, 1, 2, 3])):
-        k = rng.randrange(16)
+        k = rng.randrange(18)
         i = rng.randrange(len(body) + 1)
         s = bytes(body)
         if k == 0 and body:
@@ -80,6 +80,20 @@ def mutate(rng, boundary, body):
                         b'Content-Transfer-Encoding: base64', b'Content-Transfer-Encoding: quoted-printable',
                         b'Content-Length: 0', b'Content-Length: -1', b'X-Part: ' + b'y' * 40,
                         b'Content-Disposition: form-data; name="dup"'])
+        elif k in (16, 17):                            # amplification: a short token repeated many times inside a part header
+            # (algorithmic-complexity class: a parser that backtracks or rescans must still answer, and answer 2xx/4xx)
+            sites = [m + len(t_) for t_ in (b' name="', b' filename="', b'form-data;', b'Content-Type: ', b'Content-Disposition: ')
+                     for m in range(len(s)) if s.startswith(t_, m)]
+            if sites:
+                j = rng.choice(sites)
+                tok = rng.choice([b'\\"', b'"', b';', b'=', b'\\', b' ', b'a;', b'="', b'";', b'\t', b'(', b'\\"x', b'""', b';=', b'a="b";'])
+                rep = tok * rng.choice([20, 33, 48, 64, 70])
+                if rng.random() < .5:                  # and the quoted string it sits in never closes
+                    e = s.find(b'"', j)
+                    le = s.find(CRLF, j)
+                    if 0 <= e < le:
+                        del body[e]
+                body[j:j] = rep
         elif k == 10:
             j = s.find(CRLF)
             if j >= 0:
